@@ -21,14 +21,15 @@ Proof. exact build_perm. Qed.
 Theorem C10_tree_order : forall t t', tperm t t' -> build_val t = build_val t'.
 Proof. exact build_val_tperm. Qed.
 
-(** every observable of a unit — key listings, string tables, diagnostics in emission order, error — is unchanged when the
-    members of any object of any of its files are reordered *)
-Theorem C10_observables : forall a b, files_perm a b -> run_unit a = run_unit b.
+(** every observable of a unit — key listings, string tables, diagnostics in emission order, and the error INCLUDING the key,
+    locale and target a foreign-key diagnostic names (cycles, missing targets, references to a subkeys group) — is unchanged
+    when the members of any object of any of its files are reordered *)
+Theorem C10_observables : forall names a b, files_perm a b -> run_unit names a = run_unit names b.
 Proof. exact run_unit_perm. Qed.
 
 (** in particular the string tables (indices baked into the generated code) depend only on the sorted maps *)
-Theorem C10_strings_order : forall a b, files_perm a b ->
-  match run_unit a, run_unit b with
+Theorem C10_strings_order : forall names a b, files_perm a b ->
+  match run_unit names a, run_unit names b with
   | inl oa, inl ob => o_tables oa = o_tables ob /\ o_lists oa = o_lists ob /\ o_warnings oa = o_warnings ob
   | inr ea, inr eb => ea = eb
   | _, _ => False
@@ -38,11 +39,11 @@ Proof. exact tables_perm. Qed.
 (** determinism of the model is definitional (it is a function); the content is that it factors through the sorted maps:
     nothing downstream of `visit_map` sees the file order, and no unordered container is iterated (StringIndexer's HashMap is
     only looked up) *)
-Theorem C10_deterministic : forall files, run_unit files = from_sorted (build_all files).
+Theorem C10_deterministic : forall names files, run_unit names files = from_sorted names (build_all files).
 Proof. exact run_unit_factors. Qed.
 
 (** the executable predicate evaluated by the correspondence check holds of the model for every pair of orders *)
-Theorem C10_spec : forall a b, files_perm a b -> spec_C10 a b (model_result a) (model_result b) = true.
+Theorem C10_spec : forall names a b, files_perm a b -> spec_C10 a b (model_result names a) (model_result names b) = true.
 Proof. exact spec_C10_model. Qed.
 
 (** the code before the repair (`insert` silently replacing) is refuted: distinct member names, a permutation, two results *)
